@@ -47,6 +47,8 @@ type RAccess struct {
 }
 
 type RaceEngine struct {
+	capAlloc map[FieldKey]*ssa.Alloc
+	capCells map[ssa.Value]FieldKey
 	lingerMemo   map[*Role]bool
 	distinctMemo map[FieldKey]bool
 	Why          map[FieldKey]map[string]int // per field: how many access pairs each mechanism ordered
@@ -917,10 +919,62 @@ func (e *RaceEngine) perInstanceArg(r *Role, v ssa.Value) bool {
 	case *ssa.Extract: // value of a map range
 		_, isNext := x.Tuple.(*ssa.Next)
 		return isNext
+	case *ssa.Lookup: // m[key] with a key that differs per iteration, in a map whose values are all distinct fresh objects
+		keyVaries := false
+		switch k := x.Index.(type) {
+		case *ssa.UnOp:
+			if ia, ok := k.X.(*ssa.IndexAddr); ok && induction(ia.Index) {
+				keyVaries = true
+			}
+		case *ssa.Extract:
+			_, keyVaries = k.Tuple.(*ssa.Next)
+		}
+		if !keyVaries {
+			return false
+		}
+		if u, ok := x.X.(*ssa.UnOp); ok {
+			if fk, isF := fieldKeyOfAddr(u.X); isF {
+				return e.distinctMapValues(fk)
+			}
+		}
+		return false
 	case *ssa.MakeInterface:
 		return e.perInstanceArg(r, x.X)
 	}
 	return false
+}
+
+// distinctMapValues: every value ever put into the map field is a fresh object (constructor result or allocation).
+func (e *RaceEngine) distinctMapValues(k FieldKey) bool {
+	ok := true
+	n := 0
+	for _, fn := range e.p.LibFuncs() {
+		Instrs(fn, func(in ssa.Instruction) {
+			mu, isMU := in.(*ssa.MapUpdate)
+			if !isMU {
+				return
+			}
+			u, isU := mu.Map.(*ssa.UnOp)
+			if !isU {
+				return
+			}
+			if kk, isF := fieldKeyOfAddr(u.X); !isF || kk != k {
+				return
+			}
+			n++
+			switch v := mu.Value.(type) {
+			case *ssa.Alloc:
+			case *ssa.Call:
+				c := v.Call.StaticCallee()
+				if c == nil || !returnsFresh(c) {
+					ok = false
+				}
+			default:
+				ok = false
+			}
+		})
+	}
+	return ok && n > 0
 }
 
 // distinctElems: every pointer ever put into the slice field is a distinct object: stored or
@@ -1379,6 +1433,7 @@ func (e *RaceEngine) collect() {
 				if e.requestObject(fn, a.Instr) {
 					continue // the decoded request / reply object of this very RPC call
 				}
+				a.Key = e.qualifyLongLived(a.Instr, a.Key)
 				ra := RAccess{a.Key, a.Write, a.Instr, fn, held[a.Instr], r}
 				if u, ok := a.Instr.(*ssa.UnOp); ok && u.Op == token.MUL && a.Key.Field != "*" {
 					if nt, ok := u.Type().(*types.Named); ok {
@@ -1396,6 +1451,22 @@ func (e *RaceEngine) collect() {
 			// package-level variables of the module, and the global stores of libraries that
 			// are not safe for concurrent use (table below)
 			Instrs(fn, func(in ssa.Instruction) {
+				// local variables shared with goroutines through closure capture
+				var cell ssa.Value
+				wr := false
+				switch x := in.(type) {
+				case *ssa.Store:
+					cell, wr = x.Addr, true
+				case *ssa.UnOp:
+					if x.Op == token.MUL {
+						cell = x.X
+					}
+				}
+				if cell != nil {
+					if k, ok := e.capturedKey(cell); ok {
+						e.acc[k] = append(e.acc[k], RAccess{k, wr, in, fn, held[in], r})
+					}
+				}
 				switch x := in.(type) {
 				case *ssa.Store:
 					if g, ok := x.Addr.(*ssa.Global); ok && g.Pkg != nil && strings.HasPrefix(g.Pkg.Pkg.Path(), modPath) {
@@ -1421,6 +1492,47 @@ func (e *RaceEngine) collect() {
 	}
 }
 
+// capturedKey: the cell is a local variable of scalar (or slice/map header) type that a `go`
+// closure captures: either the variable in the function that declares it, or the closure's
+// free variable bound to it.
+func (e *RaceEngine) capturedKey(cell ssa.Value) (FieldKey, bool) {
+	if e.capCells == nil {
+		e.capCells = map[ssa.Value]FieldKey{}
+		for _, ro := range e.Roles {
+			if ro.Go == nil {
+				continue
+			}
+			mc, ok := ro.Go.Call.Value.(*ssa.MakeClosure)
+			if !ok {
+				continue
+			}
+			cl, _ := mc.Fn.(*ssa.Function)
+			if cl == nil {
+				continue
+			}
+			for i, b := range mc.Bindings {
+				al, isAl := b.(*ssa.Alloc)
+				if !isAl || i >= len(cl.FreeVars) {
+					continue
+				}
+				switch derefType(al.Type()).Underlying().(type) {
+				case *types.Struct, *types.Chan, *types.Signature, *types.Interface, *types.Pointer:
+					continue // structs are tracked by field; channels, functions and pointers are only read
+				}
+				k := FieldKey{"local", FuncName(ro.In) + "." + al.Comment}
+				e.capCells[al] = k
+				e.capCells[cl.FreeVars[i]] = k
+				if e.capAlloc == nil {
+					e.capAlloc = map[FieldKey]*ssa.Alloc{}
+				}
+				e.capAlloc[k] = al
+			}
+		}
+	}
+	k, ok := e.capCells[cell]
+	return k, ok
+}
+
 // librarySingletons: third-party packages whose package-level functions operate on one global
 // object without internal locking.  A call is a write when the function is listed, else a read.
 var librarySingletons = map[string]struct {
@@ -1432,6 +1544,54 @@ var librarySingletons = map[string]struct {
 		"AddConfigPath": true, "ReadInConfig": true, "MergeInConfig": true, "ReadConfig": true, "MergeConfig": true,
 		"MergeConfigMap": true, "Reset": true, "BindEnv": true, "AutomaticEnv": true, "RegisterAlias": true,
 	}},
+}
+
+// qualifyLongLived: a struct of a message type that is held by value inside a struct that is
+// not a message (SourceControl.totalData is a Heartbeat, DataStream embeds a DataSegment) is a
+// long-lived object, not a message in flight: its fields are keyed by the holder so that the
+// ownership-transfer exemption of message types does not apply to them.
+func (e *RaceEngine) qualifyLongLived(in ssa.Instruction, k FieldKey) FieldKey {
+	if !e.msgTy[k.Owner] {
+		return k
+	}
+	var addr ssa.Value
+	switch x := in.(type) {
+	case *ssa.Store:
+		addr = x.Addr
+	case *ssa.UnOp:
+		addr = x.X
+	default:
+		return k
+	}
+	if ia, ok := addr.(*ssa.IndexAddr); ok {
+		addr = ia.X
+		if u, isU := addr.(*ssa.UnOp); isU {
+			addr = u.X
+		}
+	}
+	fa, ok := addr.(*ssa.FieldAddr)
+	if !ok {
+		return k
+	}
+	for x := fa.X; ; {
+		in2, ok := x.(*ssa.FieldAddr)
+		if !ok {
+			return k
+		}
+		outer := ownerName(derefType(in2.X.Type()))
+		st := derefStruct(in2.X.Type())
+		if st != nil && !e.msgTy[outer] {
+			return FieldKey{outer + "·" + st.Field(in2.Field).Name(), k.Field}
+		}
+		x = in2.X
+	}
+}
+
+func ownerBase(o string) string {
+	if i := strings.Index(o, "·"); i >= 0 {
+		return o[:i]
+	}
+	return o
 }
 
 // freshBase: the accessed object is the result of a call whose every target returns a fresh allocation.
@@ -2009,8 +2169,19 @@ func (e *RaceEngine) mayRunDuringD(a RAccess, r *Role, depth int) (bool, string)
 		if !r.Multi && !e.lingers(r) {
 			return false, "same single-instance goroutine"
 		}
-		if e.partOf(r)[a.Key.Owner] {
+		if e.partOf(r)[ownerBase(a.Key.Owner)] {
 			return false, "per-instance object of a multi-instance role"
+		}
+		if a.Key.Owner == "local" {
+			// captured local: one variable per execution of the declaring statement.  Instances of a
+			// role started outside a loop never share it; instances started in a loop share it
+			// unless it is declared inside that loop.
+			if !r.Multi {
+				return false, "captured local of one spawn"
+			}
+			if al := e.capAlloc[a.Key]; al != nil && r.Go != nil && (InLoopWith(al, r.Go) || al.Block() == r.Go.Block()) {
+				return false, "captured local declared per iteration"
+			}
 		}
 		return true, ""
 	}
@@ -2049,7 +2220,8 @@ func (e *RaceEngine) mayRunDuringD(a RAccess, r *Role, depth int) (bool, string)
 		pi := e.pre(s, c)
 		if pi.instr[a.Instr] || pi.fn[a.Fn] {
 			// an earlier instance of a goroutine that outlives its spawner may still be running
-			if l := e.chainLingers(c, r); l != nil && !e.partOf(l)[a.Key.Owner] {
+			// (a captured local is a new variable for every execution of the spawner)
+			if l := e.chainLingers(c, r); l != nil && !e.partOf(l)[ownerBase(a.Key.Owner)] && a.Key.Owner != "local" {
 				return true, ""
 			}
 			return false, "executed by the spawner before the go statement"
